@@ -12,6 +12,24 @@ import (
 
 var errCut = errors.New("harness: trunk cut")
 
+// cutError is what a failing trunk.Write returns when the scenario asks for an error that implements
+// net.Error: a write deadline that expired (Timeout) or a transient condition (Temporary).  For the Mux a
+// partial write is fatal whatever the type of the error.
+type cutError struct {
+	timeout, temporary bool
+}
+
+func (e *cutError) Error() string {
+	if e.timeout {
+		return "harness: trunk write: i/o timeout"
+	}
+	return "harness: trunk write: temporarily unavailable"
+}
+func (e *cutError) Timeout() bool   { return e.timeout }
+func (e *cutError) Temporary() bool { return e.temporary }
+
+var _ net.Error = (*cutError)(nil)
+
 // recConn is the trunk handed to a Mux: it records every byte that really went
 // out (tee of the trunk), optionally fails after a byte budget (a trunk cut at an
 // exact byte offset), makes the in-memory pipe report a locally closed connection
@@ -38,6 +56,10 @@ type recConn struct {
 	closedC chan struct{} // closed when the Mux calls Close on its trunk
 	bigOnce sync.Once
 	bigC    chan struct{} // closed when the first Write of a MiB or more starts
+	// cutErr: "" = errCut; "timeout" / "temporary" = a net.Error of that kind, and the trunk is only stalled: when
+	// the failing Write was partial (n != 0) later Writes go through again ("the peer drains again") — a Mux that
+	// has not closed itself then sends frames into a stream that has lost frame synchronisation
+	cutErr string
 }
 
 func newRec(c net.Conn, budget int) *recConn {
@@ -48,6 +70,16 @@ func newRec(c net.Conn, budget int) *recConn {
 		r.halfClose()
 	}
 	return r
+}
+
+func (r *recConn) failure() error {
+	switch r.cutErr {
+	case "timeout":
+		return &cutError{timeout: true, temporary: true}
+	case "temporary":
+		return &cutError{temporary: true}
+	}
+	return errCut
 }
 
 func (r *recConn) halfClose() {
@@ -77,7 +109,7 @@ func (r *recConn) Write(p []byte) (int, error) {
 		if len(p) == 0 {
 			return 0, nil // nothing to send: the empty payload of a frame whose header just fitted
 		}
-		return 0, errCut
+		return 0, r.failure()
 	}
 	if r.budget >= 0 && len(p) > r.budget {
 		n := 0
@@ -89,8 +121,10 @@ func (r *recConn) Write(p []byte) (int, error) {
 		r.broken = true
 		if n == 0 {
 			r.halfClose()
+		} else if r.cutErr != "" {
+			r.broken, r.budget = false, -1 // a stall, not a cut: the trunk takes bytes again
 		}
-		return n, errCut
+		return n, r.failure()
 	}
 	n, err := r.Conn.Write(p)
 	r.record(p[:n])
